@@ -240,15 +240,22 @@ def run(P, C, tier):
                 carried[l] = (nme, lty, ds)
 
         def carried_of(t, ty_re):
-            """the carried variable (of a type) a term is rooted in, looking through `if let Some(x) = &carried`"""
-            for x in mir.subterms(t):
-                if x[0] == "var" and len(x) > 2:
-                    if x[2] in carried and re.search(ty_re, carried[x[2]][1]):
-                        return x[2]
-                    for d in cp.var_defs(x):
-                        for y in mir.subterms(d):
-                            if y[0] == "var" and len(y) > 2 and y[2] in carried and re.search(ty_re, carried[y[2]][1]):
-                                return y[2]
+            """the carried variable (of a type) a term is rooted in, looking through `if let Some(x) = &carried` and
+            through the parameters of an inlined helper"""
+            seen_l = set()
+            frontier = [t]
+            for _ in range(5):
+                nxt = []
+                for tm in frontier:
+                    for x in mir.subterms(tm):
+                        if x[0] == "var" and len(x) > 2 and x[2] not in seen_l:
+                            seen_l.add(x[2])
+                            if x[2] in carried and re.search(ty_re, carried[x[2]][1]):
+                                return x[2]
+                            nxt += cp.var_defs(x)
+                frontier = nxt
+                if not frontier:
+                    break
             return None
         n = 0
         seen_sites = set()
@@ -259,11 +266,9 @@ def run(P, C, tier):
             src = carried_of(a[1], r"Option<.*Vec<u8>>")
             if src is None:
                 continue
-            g = cp.guards(bi, expand_vars=False)
             room_eq = ent_eq = False
             rec = "carry-over"
-            for s_, vals, term in g:
-                atom, truth = mir.cond_atoms(term, vals)
+            for atom, truth in cp.guard_atoms(bi, expand_vars=False):
                 if atom[0] == "call" and atom[1].endswith("::eq") and truth is True and len(atom[2]) == 2:
                     x, y = atom[2]
                     for ty_re, which in ((r"^\[u8; 16\]$", "room"), (r"String$", "entity")):
